@@ -72,5 +72,50 @@ theorem stake_changes_queue_a_rebalance (op : Op) (w w' : World)
       | _ => False)
     (h : step op w = (.ok (), w')) : w'.flag = true := stake_change_sets_flag op w w' hop h
 
+/-! ## the target, and what a top-up is worth -/
+
+/-- the target of a bonded validator is, literally, Σ over the started assets of
+    Mul(Quo(validator's shares of the asset, the asset's BONDED share total), weight × native bonded stake): the loop of
+    `RebalanceBondTokenWeights` that computes `expectedBondAmount` (the fold below is that loop, as it stands in the model)
+    returns `acc + targetOf …`; assets in their warm-up contribute 0 (`targetTerm`) -/
+theorem expected_stake_is_the_weighted_sum (now : Time) (native : Int) (unbonded : DecCoins) (info : ValInfo)
+    (assets : List Asset) (acc : Dec) :
+    Hoare (fun _ => True)
+      (assets.foldlM (fun (acc : Dec) (a : Asset) => do
+        if !rewardsStarted a now then
+          queueRebalance
+          pure acc
+        else
+          let vs := valSharesWithDenom info a.denom
+          let expForAsset := mulInt a.weight native
+          let bondedVS := a.totalValShares - DecCoins.amountOf unbonded a.denom
+          if vs > 0 ∧ bondedVS > 0 then pure (acc + mul (quo vs bondedVS) expForAsset) else pure acc) acc)
+      (fun r _ => r = acc + targetOf now native unbonded info assets) := expected_loop now native unbonded info assets acc
+
+/-- what `stakingKeeper.Delegate` writes for the module account: tokens + amt, shares + ⌊D·amt/T⌋ on both the validator and
+    the module's delegation -/
+theorem top_up_record (v : ValId) (snap : SVal) (amt : Int) :
+    Hoare (fun _ => True) (stakingDelegate v snap amt) (fun _ w' => ∃ live0 : Option Dec,
+      getSVal w' v = some { snap with
+        tokens := snap.tokens + amt
+        delShares := snap.delShares + (if snap.delShares = 0 then ofInt amt else quoInt (mulInt snap.delShares amt) snap.tokens)
+        modShares := some (live0.getD 0 + (if snap.delShares = 0 then ofInt amt else quoInt (mulInt snap.delShares amt) snap.tokens)) }) :=
+  stakingDelegate_record v snap amt
+
+/-- a top-up is worth what was minted: with `ds` of the validator's `D` shares backed by `T` tokens, delegating `amt` moves the
+    module's stake value (as an exact rational) from ds·T/D to a value in (ds·T/D + amt − T/(D+i), ds·T/D + amt] — short by
+    less than the value of one 10⁻¹⁸ share, which goes to the other delegators; cross-multiplied by D·(D+i) -/
+theorem top_up_is_worth_what_was_minted (snap : SVal) (ds : Dec) (amt : Int) (hT : 0 < snap.tokens) (hD : 0 < snap.delShares)
+    (hds0 : 0 ≤ ds) (hds : ds ≤ snap.delShares) (hamt : 0 ≤ amt) :
+    let i := quoInt (mulInt snap.delShares amt) snap.tokens
+    (ds + i) * (snap.tokens + amt) * snap.delShares ≤ (ds * snap.tokens + amt * snap.delShares) * (snap.delShares + i) ∧
+    (ds * snap.tokens + amt * snap.delShares) * (snap.delShares + i) <
+      (ds + i) * (snap.tokens + amt) * snap.delShares + snap.tokens * snap.delShares :=
+  top_up_value snap ds amt hT hD hds0 hds hamt
+
+/-- non-vacuity: 3 of 10 shares backed by 10 tokens, top-up of 5: value 3 → 3 + 5 exactly (i = 5) -/
+example : let i := (10 * 5 : Int) / 10
+    (3 + i) * (10 + 5) * 10 ≤ (3 * 10 + 5 * 10) * (10 + i) ∧ (3 * 10 + 5 * 10) * (10 + i) < (3 + i) * (10 + 5) * 10 + 10 * 10 := by decide
+
 end C10
 end Alliance
